@@ -25,7 +25,7 @@ from . import common
 
 ID = "C11"
 LEVEL = "exploration"
-KNOBS = {"p_zero_attempts": 0.04, "p_firing_timeout": 0.12, "hows": ["execute"], "p_result": 0.7, "p_decisions": 0.5, "p_handler": 0.5, "p_abort": 0.35, "p_abort_if": 0.7,
+KNOBS = {"p_zero_attempts": 0.04, "p_attempt_timeout": 0.1, "p_firing_timeout": 0.12, "hows": ["execute"], "p_result": 0.7, "p_decisions": 0.5, "p_handler": 0.5, "p_abort": 0.35, "p_abort_if": 0.7,
          "p_budget": 0.3, "p_generous": 0.5, "p_ok": 0.15, "p_retryable": 0.8}
 RULE = ("seeded swarm over the execute entry points (Retry/Policy/RetryPolicy/from_config, +no-retry Policy, +breaker "
         "rejection; sync+async), abort at every poll index, handler decisions, plus a faulty sub-batch injecting raising "
@@ -59,7 +59,8 @@ def gen(seed, tier="quick"):
     # faulty sub-batch (kept separate: ~25 %)
     if r.random() < 0.25 and scn["entry"] != "Policy.noretry":
         call = scn["calls"][0]
-        kind = r.choice(["strategy", "classifier", "sleeper", "base", "nested_ree", "attempt_start"])
+        kind = r.choice(["strategy", "classifier", "sleeper", "base", "nested_ree", "attempt_start", "attempt_start"])
+        hook_site = r.choice(["attempt_start", "attempt_end"])
         n = max(scn["cfg"]["max_attempts"], 1)
         if kind in ("strategy", "classifier", "sleeper"):
             call["faults"] = [{"site": kind, "at": r.randrange(0, n), "exc": r.choice(["ValueError", "RuntimeError", "KeyError", "Custom", "ZeroDivisionError"]),
@@ -67,7 +68,7 @@ def gen(seed, tier="quick"):
         elif kind == "attempt_start":
             # a raising on_attempt_start hook (the statement is silent on whether it propagates): if execute() does
             # return an outcome, that outcome is still held to R2/R3 (attempts = invocations, final failure ...)
-            call["faults"] = [{"site": "attempt_start", "at": r.randrange(0, n), "exc": r.choice(["ValueError", "RuntimeError", "KeyError"]), "kind": "callback_raise"}]
+            call["faults"] = [{"site": hook_site, "at": r.randrange(0, n), "exc": r.choice(["ValueError", "RuntimeError", "KeyError"]), "kind": "callback_raise"}]
             if scn["place"].get("att_hooks", "none") == "none":
                 scn["place"]["att_hooks"] = r.choice(["policy", "call", "both"])
         elif kind == "base":
@@ -99,7 +100,7 @@ def oracle(scn, trace):
                 ok_raise = True
             elif injected and exc["type"] in (injected[-1]["exc"], "CustomHookError" if injected[-1]["exc"] == "Custom" else None):
                 ok_raise = True
-            elif any(e["ev"] == "FAULT" and e["site"] == "attempt_start" and e["obj"] == exc.get("obj") for e in cf.events):
+            elif any(e["ev"] == "FAULT" and e["site"] in ("attempt_start", "attempt_end") and e["obj"] == exc.get("obj") for e in cf.events):
                 ok_raise = True      # the injected hook error itself (not constrained by the statement)
             if not ok_raise:
                 out.append(V("R1", f"execute() raised {exc['type']}", {"call": cid, "exc": exc, "entry": ent,
